@@ -41,6 +41,8 @@ const QUICK_PROGRAMS: &[&str] = &[
     "h=1,1,0 : send:2 | mutate drop | recv read unwrap",
     "read | mutate | drop",
     "h=2,1 : drop mutate read | drop",
+    "read drop | drop",
+    "read drop | unwrap",
     // started at (or one below) the share-count ceiling
     "at=ceil h=1,1,1 : clone | clone | mutate drop",
     "at=ceil h=1,1,1 : clone drop | clone drop | mutate",
@@ -236,6 +238,8 @@ struct Eval {
     problem: Option<String>,
     sets_equal: Option<bool>,
     validated: u64,
+    /// the program of the fixed/generated list this (shrunk) failing program comes from
+    shrunk_from: Option<String>,
 }
 
 fn set_str(s: &BTreeSet<String>) -> String {
@@ -358,7 +362,7 @@ fn evaluate(
         }
         None => (None, None, 0),
     };
-    Eval { prog: p.clone(), loom, lean: lean_res, problem, sets_equal, validated }
+    Eval { prog: p.clone(), loom, lean: lean_res, problem, sets_equal, validated, shrunk_from: None }
 }
 
 /// Greedy shrinking of a failing program: delete one action at a time while `still_fails`
@@ -469,6 +473,9 @@ fn main() {
             let b = ev.loom.bound;
             ev = shrink(ev, b, complement, &mut lean, &|e: &Eval| e.problem.is_some());
         }
+        if ev.prog.line() != p.line() {
+            ev.shrunk_from = Some(p.line());
+        }
         if args.verbose {
             eprintln!(
                 "[{:>6} ms] {} => loom {} ({} iters, bound {:?}) {}",
@@ -509,8 +516,18 @@ fn main() {
         };
         *dist_outcomes.entry(k.to_string()).or_default() += 1;
     }
-    let disagreements: Vec<&Eval> = evals.iter().filter(|e| e.problem.is_some()).collect();
-    let monitors: Vec<&Eval> = evals.iter().filter(|e| is_monitor(&e.loom.verdict)).collect();
+    // several programs of the list may shrink to the same failing program: report it once
+    let mut seen: BTreeSet<(String, String)> = BTreeSet::new();
+    let disagreements: Vec<&Eval> = evals
+        .iter()
+        .filter(|e| e.problem.is_some())
+        .filter(|e| seen.insert(("impl-vs-model".into(), e.prog.line())))
+        .collect();
+    let monitors: Vec<&Eval> = evals
+        .iter()
+        .filter(|e| is_monitor(&e.loom.verdict))
+        .filter(|e| seen.insert((e.loom.verdict.clone(), e.prog.line())))
+        .collect();
     let loom_errors: Vec<&Eval> = evals
         .iter()
         .filter(|e| e.loom.verdict == "error" || e.loom.verdict == "branch-limit")
@@ -574,6 +591,9 @@ fn main() {
             d.str("observed", ev.loom.message.as_deref().unwrap_or(kind));
             d.str("profile", if cfg!(debug_assertions) { "debug" } else { "release" });
             d.num("failing_execution", ev.loom.iterations);
+            if let Some(o) = &ev.shrunk_from {
+                d.str("shrunk_from", o);
+            }
             d.raw(
                 "preemption_bound",
                 &ev.loom.bound.map(|b| b.to_string()).unwrap_or_else(|| "null".into()),
@@ -608,6 +628,9 @@ fn main() {
             );
             d.str("profile", if cfg!(debug_assertions) { "debug" } else { "release" });
             d.str("why", ev.problem.as_deref().unwrap_or(""));
+            if let Some(o) = &ev.shrunk_from {
+                d.str("shrunk_from", o);
+            }
             d.raw(
                 "preemption_bound",
                 &ev.loom.bound.map(|b| b.to_string()).unwrap_or_else(|| "null".into()),
@@ -688,9 +711,10 @@ fn main() {
     }
     for ev in &monitors {
         eprintln!(
-            "loomdrive: MONITOR {} fired on `{}`: {}",
+            "loomdrive: MONITOR {} fired on `{}`{}: {}",
             ev.loom.verdict,
             ev.prog.line(),
+            ev.shrunk_from.as_ref().map(|o| format!(" (shrunk from `{o}`)")).unwrap_or_default(),
             ev.loom.message.as_deref().unwrap_or("")
         );
     }
